@@ -13,6 +13,7 @@ EXPLANATION = (
     "with i drawn by np.random.choice over range(len(steps[: -(L - 1)])), optionally weighted by normalised (1 - 1/span) ** age; (S3) a configured episode_length n is stored "
     "as n + 1 states, reset passes the override or the configured length as is, reset fetches one batch and each step one more, StopIteration ends the episode; (S5) walk_forward: "
     "test_end - test_start + 1 = test_size, test_start = train_end + 1, stride = test_size, train_end - train_start + 1 = train_size (sliding), indices over the whole grid."
+    " Every way out of Transmitter._reset re-assigns the episode's steps (S1.steps-recomputed-at-every-reset)."
 )
 DECIDED = ["S1 steps lie in the inclusive fold window, in order", "S2 an episode of length L is L consecutive steps starting anywhere it fits", "S3 n decisions <-> n+1 states",
            "S5 walk-forward windows: disjoint, ordered, requested size, test follows own train"]
